@@ -60,6 +60,12 @@ pub struct Inner {
     pub next_oid: usize,
     pub next_hid: usize,
     pub polls_total: usize,
+    /// strong senders a broker holds during one fan-out: broker -> [(subscriber, handle)]
+    pub broker_held: HashMap<usize, Vec<(usize, usize)>>,
+    /// (broker, handle) the next clone of a publication is for
+    pub broker_target: Option<(usize, usize)>,
+    /// id of the publication the broker is about to fan out (+1; 0 = unknown)
+    pub broker_src: u64,
 }
 
 #[derive(Clone, Default)]
@@ -298,25 +304,67 @@ impl verif::Backend for Exec {
             "restart" => 2,
             _ => 3,
         };
-        let aid = {
-            let i = self.0.borrow();
-            i.ctx2aid.get(&ctx).copied()
-        };
-        let aid = match aid {
+        let aid = self.aid_or_foreign(ctx);
+        self.0.borrow_mut().log.push(vec![crate::ev::DEQ, aid as u64, pk]);
+    }
+    fn broker_msg(&self, _ctx: u64, msg: &dyn std::any::Any) {
+        use crate::actor::Topic;
+        let o = msg.downcast_ref::<Topic<1>>().map(|t| t.o).or_else(|| msg.downcast_ref::<Topic<2>>().map(|t| t.o)).flatten();
+        self.0.borrow_mut().broker_src = o.map(|o| o as u64 + 1).unwrap_or(0);
+    }
+    fn broker(&self, ctx: u64, what: &'static str, arg: u64) {
+        use crate::ev;
+        let b = self.aid_or_foreign(ctx);
+        let a = self.0.borrow().ctx2aid.get(&arg).copied().unwrap_or(usize::MAX >> 8);
+        let mut i = self.0.borrow_mut();
+        match what {
+            "publish" => {
+                i.broker_held.insert(b, vec![]);
+                let src = std::mem::take(&mut i.broker_src);
+                i.log.push(vec![ev::BROKER, b as u64, 0, src, 0]);
+            }
+            "holds" => {
+                i.next_hid += 1;
+                let h = i.next_hid - 1;
+                i.log.push(vec![ev::HANDLE, h as u64, a as u64, crate::case::HKind::Sender.code()]);
+                i.log.push(vec![ev::BROKER, b as u64, 1, a as u64, h as u64]);
+                i.broker_held.entry(b).or_default().push((a, h));
+            }
+            "target" => {
+                let h = i.broker_held.get(&b).and_then(|l| l.iter().find(|(x, _)| *x == a).map(|(_, h)| *h)).unwrap_or(usize::MAX >> 8);
+                i.log.push(vec![ev::BROKER, b as u64, 2, a as u64, h as u64]);
+                i.broker_target = Some((b, h));
+            }
+            "published" => {
+                i.log.push(vec![ev::BROKER, b as u64, 3, 0, 0]);
+                // the vector of upgraded senders is dropped when the handler returns, right after this
+                for (_, h) in i.broker_held.remove(&b).unwrap_or_default() {
+                    i.log.push(vec![ev::DROP, h as u64]);
+                }
+                i.broker_target = None;
+            }
+            "subscribe" => i.log.push(vec![ev::BROKER, b as u64, 4, a as u64, 0]),
+            "unsubscribe" => i.log.push(vec![ev::BROKER, b as u64, 5, a as u64, 0]),
+            _ => {}
+        }
+    }
+}
+
+impl Exec {
+    /// the harness id of the actor behind a context id; an actor the harness did not create
+    /// itself (the broker) is announced as foreign the first time it shows up
+    fn aid_or_foreign(&self, ctx: u64) -> usize {
+        let known = self.0.borrow().ctx2aid.get(&ctx).copied();
+        match known {
             Some(a) => a,
             None => {
-                // an actor the harness did not create itself (the broker)
-                let a = {
-                    let mut i = self.0.borrow_mut();
-                    i.next_aid += 1;
-                    let a = i.next_aid - 1;
-                    i.ctx2aid.insert(ctx, a);
-                    a
-                };
-                self.0.borrow_mut().log.push(vec![crate::ev::FOREIGN, a as u64]);
+                let mut i = self.0.borrow_mut();
+                i.next_aid += 1;
+                let a = i.next_aid - 1;
+                i.ctx2aid.insert(ctx, a);
+                i.log.push(vec![crate::ev::FOREIGN, a as u64]);
                 a
             }
-        };
-        self.0.borrow_mut().log.push(vec![crate::ev::DEQ, aid as u64, pk]);
+        }
     }
 }
